@@ -7,7 +7,7 @@ package store
 // Fields of Store that are set when the Store is built (New) or opened (Open) and never
 // re-assigned afterwards; checked syntactically over the package (obligations #stable[f]).
 //@ type Store
-//@   stable db, dbDir, snapshotCAS, fsmTarget, appliedTarget, open, reqMarshaller, throttler, readyChans, fsmUpdateTime, appendedAtTime, dbModifiedTime, raft, snapshotStore, cmdProc, dechunkManager, raftTn, logger, raftID
+//@   stable db, dbDir, snapshotCAS, fsmTarget, appliedTarget, open, reqMarshaller, throttler, readyChans, fsmUpdateTime, appendedAtTime, dbModifiedTime, raft, snapshotStore, cmdProc, dechunkManager, raftTn, logger, raftID, walStagingDir, walPath, cleanSnapshotPath
 //@   stable_set_in New, Open
 //
 // ---- C31: shutdown waits for the gate only as long as needed ----------------------------------
@@ -598,3 +598,112 @@ package store
 //@   ghost update @RecoverNode: recovered = (result == nil)
 //@   assert @createDBOnDisk: [rebuild-database-after-recovery] recovered ==> (arg2 && !fast)
 //@   assert @createDBOnDisk: [fast-path-keeps-files] arg2 == !fast
+
+// ---- C04: the chain full snapshot + WAL segments stays a faithful copy of the applied database ------
+// snapshotDueNext: an incremental snapshot is chosen only when the snapshot store says the chain is
+// intact AND the database file was not modified behind the store's back; every error means Full.
+//@ func (*Store) snapshotDueNext
+//@   requires [built] s != nil
+//@   assigns **
+//@   ghost var storeDue int = -1
+//@   ghost var storeErr error = nil
+//@   ghost var modSeen bool = false
+//@   ghost var modified bool = false
+//@   ghost update after @s.snapshotStore.DueNext: storeDue = result0
+//@   ghost update after @s.snapshotStore.DueNext: storeErr = result1
+//@   ghost update after @?s.dbModified: modSeen = true
+//@   ghost update after @?s.dbModified: modified = result
+//@   ensures [full-on-error] result1 != nil ==> result0 == snapshot.Full
+//@   ensures [full-when-store-says-full] (result1 == nil && storeDue == snapshot.Full) ==> result0 == snapshot.Full
+//@   ensures [full-when-modified-outside] (result1 == nil && modSeen && modified) ==> result0 == snapshot.Full
+//@   ensures [incremental-only-when-chain-intact] result0 == snapshot.Incremental ==> (storeErr == nil && storeDue != snapshot.Full && modSeen && !modified)
+//@   ensures [one-of-two] result0 == snapshot.Full || result0 == snapshot.Incremental
+//
+//@ func (*Store) dbModified
+//@   requires [built] s != nil
+//@   assigns **
+//@   ghost var lmErr error = nil
+//@   ghost update after @s.db.DBLastModified: lmErr = result1
+//@   ensures [unknown-means-modified] lmErr != nil ==> result
+//
+// fsmSnapshot.
+//  full: a full snapshot starts a new chain. WAL segments still staged by earlier incremental
+//  snapshots that were never persisted predate the copy and must be dropped before it is taken -
+//  and the store must say "full needed" first, so that a failure between dropping them and storing
+//  the full snapshot cannot be followed by an incremental one. The copy is streamed only after a
+//  checkpoint that succeeded completely.
+//  incremental: the segment is kept (Close) only after Checkpoint returned nil, handed over as the
+//  staging directory, and removed again (deferred Cancel) on every error return after it was created.
+//  Once the checkpoint has moved the WAL into the database, a segment that cannot be kept is a
+//  hole in the chain: the store must be told that a full snapshot is needed.
+//@ func (*Store) fsmSnapshot
+//@   requires [built] s != nil && s.db != nil && s.snapshotStore != nil && s.snapshotCAS != nil
+//@   assigns **
+//@   ghost var due int = -1
+//@   ghost var fullMarked bool = false
+//@   ghost var stagingCleared bool = false
+//@   ghost var fullCkptOK bool = false
+//@   ghost var created bool = false
+//@   ghost var incCkptOK bool = false
+//@   ghost var kept bool = false
+//@   ghost var cancelled bool = false
+//@   ghost var stagingPath string = ""
+//@   ghost update after @s.snapshotDueNext: due = result0
+//@   assert @s.snapshotStore.SetDueNext: [only-ever-asks-for-full] arg0 == snapshot.Full
+//@   ghost update after @s.snapshotStore.SetDueNext: fullMarked = (fullMarked || result == nil)
+//@   assert @?os.RemoveAll: [staged-segments-dropped-only-for-full-and-marked] due == snapshot.Full && fullMarked && arg0 == s.walStagingDir
+//@   ghost update after @?os.RemoveAll: stagingCleared = (result == nil)
+//@   assert @s.checkpointer.Checkpoint#1: [full-starts-a-new-chain] due == snapshot.Full && fullMarked && stagingCleared && arg0 == nil
+//@   ghost update after @s.checkpointer.Checkpoint#1: fullCkptOK = (result2 == nil)
+//@   ghost var metaOK bool = false
+//@   ghost var dbPath string = ""
+//@   ghost update after @meta.Success: metaOK = result
+//@   ghost update after @s.db.Path: dbPath = result
+//@   assert @snapshot.NewSnapshotStreamer: [full-copy-after-complete-checkpoint] fullCkptOK && metaOK && arg0 == dbPath
+//@   assert @sd.CreateWAL: [segment-only-for-incremental] due == snapshot.Incremental
+//@   ghost update after @sd.CreateWAL: created = (result2 == nil)
+//@   assert @s.checkpointer.Checkpoint#2: [wal-captured-into-the-new-segment] created && arg0 == walWriter
+//@   ghost update after @s.checkpointer.Checkpoint#2: incCkptOK = (result2 == nil)
+//@   assert @walWriter.Close: [segment-kept-only-after-checkpoint] incCkptOK
+//@   ghost update after @walWriter.Close: kept = (result == nil)
+//@   assert @snapshot.NewSnapshotPathStreamer: [incremental-hands-over-the-staging-directory] kept && arg0 == s.walStagingDir
+//@   ghost update @walWriter.Cancel#1: cancelled = true
+//@   ensures [error-means-no-snapshot] retErr != nil ==> fSnap == nil
+//@   ensures [failed-incremental-leaves-no-partial-segment] (created && retErr != nil) ==> cancelled
+//@   ensures [lost-segment-needs-full] (incCkptOK && !kept && retErr != nil) ==> fullMarked
+//
+// The release callback: a snapshot whose persist was not invoked changes nothing (the staged
+// segments wait for the next snapshot); one whose persist failed after the staging directory was
+// consumed has broken the chain, so the store is told that a full snapshot is needed.
+//@ func (*Store) fsmSnapshot$OnRelease
+//@   assigns **
+//@   ghost var stagingSeen bool = false
+//@   ghost var stagingThere bool = false
+//@   ghost var fullSet bool = false
+//@   assert @fsutil.DirExists: [looks-at-the-staging-directory] arg0 == s.walStagingDir
+//@   ghost update after @fsutil.DirExists: stagingSeen = true
+//@   ghost update after @fsutil.DirExists: stagingThere = result
+//@   assert @s.snapshotStore.SetDueNext: [full-only-when-chain-broken] invoked && !succeeded && stagingSeen && !stagingThere && arg0 == snapshot.Full
+//@   ghost update after @s.snapshotStore.SetDueNext: fullSet = true
+//@   ensures [broken-chain-needs-full] (invoked && !succeeded) ==> (stagingSeen && (stagingThere || fullSet))
+//
+// fsmRestore: a database installed from a snapshot replaces the one the staged segments were
+// captured from: they are dropped (and the fast-restart marker removed) before the swap.
+//@ func (*Store) fsmRestore
+//@   requires [built] s != nil && s.db != nil && s.fsmTarget != nil && s.appliedTarget != nil
+//@   assigns **
+//@   ghost var restoredOK bool = false
+//@   ghost var markerGone bool = false
+//@   ghost var stagingGone bool = false
+//@   ghost var tmpP string = ""
+//@   ghost update after @snapshot.Restore: restoredOK = (result1 == nil)
+//@   ghost update after @snapshot.Restore: tmpP = arg1
+//@   assert @fsutil.RemoveFile: [marker] arg0 == s.cleanSnapshotPath
+//@   ghost update after @fsutil.RemoveFile: markerGone = (result == nil)
+//@   assert @?os.RemoveAll: [staging] arg0 == s.walStagingDir
+//@   ghost update after @?os.RemoveAll: stagingGone = (result == nil)
+//@   assert @s.db.Swap: [installed-database-drops-staged-segments] restoredOK && stagingGone && arg0 == tmpP
+//@   assert @s.db.Swap: [fast-restart-marker-removed-before-swap] markerGone
+//@   assert @s.createSnapshotFingerprint: [marker-recreated-only-after-swap] swapped
+//@   ghost var swapped bool = false
+//@   ghost update after @s.db.Swap: swapped = (result == nil)
